@@ -8,8 +8,8 @@ CONSTANTS
   MaxRows = 5
   Script = FALSE
   WithEnv = TRUE
-  Depth = 9
-  GenActs <- ActsTemp
+  Depth = 10
+  GenActs <- ActsDirs
 INIT GenInit
 NEXT GenNext
 CONSTRAINT Emit
